@@ -76,6 +76,9 @@ struct ItemReq {
     /// D11: path -> replacement text (resolution of `pub use` / type aliases of the crate root)
     #[serde(default)]
     paths: BTreeMap<String, String>,
+    /// D13: closure ordinals whose enclosing `OPTION.map(|pat| body)` is rewritten to a `match`
+    #[serde(default)]
+    option_map: Vec<usize>,
 }
 
 #[derive(Serialize, Default)]
@@ -562,6 +565,7 @@ struct BodyVisitor<'ast> {
     loops: Vec<&'ast syn::Expr>,
     sums: Vec<&'ast syn::ExprMethodCall>,
     ctor_args: Vec<&'ast syn::ExprPath>,
+    maps: Vec<&'ast syn::ExprMethodCall>,
 }
 
 impl<'ast> Visit<'ast> for BodyVisitor<'ast> {
@@ -579,6 +583,11 @@ impl<'ast> Visit<'ast> for BodyVisitor<'ast> {
     fn visit_expr_method_call(&mut self, m: &'ast syn::ExprMethodCall) {
         if m.method == "sum" {
             self.sums.push(m);
+        }
+        if m.method == "map" && m.args.len() == 1 {
+            if let syn::Expr::Closure(_) = &m.args[0] {
+                self.maps.push(m);
+            }
         }
         if (m.method == "map" || m.method == "map_err") && m.args.len() == 1 {
             if let syn::Expr::Path(p) = &m.args[0] {
@@ -704,6 +713,20 @@ fn process_fn(
 
                 // D3 + closure contracts
                 for (k, c) in bv.closures.iter().enumerate() {
+                    if req.option_map.contains(&k) {
+                        // D13: OPTION.map(|pat| body)  ->  match OPTION { Some(pat) => Some(body), None => None }
+                        let m = bv.maps.iter().find(|m| matches!(&m.args[0], syn::Expr::Closure(cc) if std::ptr::eq(cc, *c)))
+                            .ok_or_else(|| format!("lost-anchor: closure {} is not the argument of a .map(..) call", k))?;
+                        if c.inputs.len() != 1 {
+                            return Err("unsupported: option_map closure must take one parameter".to_string());
+                        }
+                        let pat = &c.inputs[0];
+                        let pat_text = src.text[src.start(pat)..src.end(pat)].to_string();
+                        ctx.edits.insert(src.start(&*m.receiver), "match ".to_string(), "D13", format!("closure {}: Option::map with a closure literal rewritten to a match", k));
+                        ctx.edits.replace(src.end(&*m.receiver), src.start(&*c.body), format!(" {{ Some({}) => Some(", pat_text), "D13", String::new());
+                        ctx.edits.replace(src.end(&*c.body), src.end(*m), "), None => None }".to_string(), "D13", String::new());
+                        continue;
+                    }
                     let spec = req.closures.get(&k.to_string()).cloned().unwrap_or_default();
                     let mut lets: Vec<String> = Vec::new();
                     for (i, p) in c.inputs.iter().enumerate() {
